@@ -70,24 +70,23 @@ theorem longTarget_uriOK (n : Nat) : uriOK (longTarget n) = true := by
 
 /-! ### the Scanner limit -/
 
-/-- a first line of `maxTok` bytes or more ends the pass at once with `token too long` -/
-theorem uriPass_toolong (line R : Bytes) (h : Hdrs) (hline : LF ∉ line) (hlong : maxTok ≤ line.length)
+/-- with a token limit `l > 0`, a first line of `l` bytes or more ends the pass at once with `token too long` -/
+theorem uriPass_toolong (l : Nat) (hl : 0 < l) (line R : Bytes) (h : Hdrs) (hline : LF ∉ line) (hlong : l ≤ line.length)
     (hR : R = [] ∨ ∃ R', R = LF :: R') :
-    uriPass (line ++ R) h = ([], .err .toolong) := by
+    uriPassLim (some l) (line ++ R) h = ([], .err .toolong) := by
   have hc : (cut LF (line ++ R)).1 = line := by
     rcases hR with hR | ⟨R', hR⟩
     · rw [hR, List.append_nil, cut_no_sep LF line hline]
     · rw [hR, cut_append_sep LF line R' hline]
-  have hpos : 0 < line.length := by unfold maxTok at hlong; omega
+  have hpos : 0 < line.length := by omega
   cases hb : line ++ R with
   | nil =>
     have : (line ++ R).length = 0 := by rw [hb]; rfl
     rw [List.length_append] at this; omega
   | cons b r =>
-    rw [uriPass]
+    rw [uriPassLim]
     rw [hb] at hc
-    simp only [hc]
-    rw [if_pos hlong]
+    simp only [hc, tooLong, hlong, decide_true, if_true]
 
 /-! ### scope of a header line -/
 
